@@ -82,6 +82,20 @@ def _certs(g, n, mks, fold=0.0, empty=True, pat_kinds=None, cfgl=None):
     return out
 
 
+def fanout_exact(g, width, prefix_len, with_prefix_pattern=False):
+    """exactly `width` distinct next bytes under one prefix (the encodings of a state switch at fixed fan-outs:
+    1 / 2..127 / 128.. for the contiguous NFA, and the sentinel kinds sit just below 256)"""
+    pre = bytes(g.rng.choice(b"xyz") for _ in range(prefix_len))
+    nexts = g.rng.sample(range(256), width)
+    ps = [pre + bytes([b]) for b in nexts]
+    if with_prefix_pattern and pre:
+        ps.insert(g.rng.randrange(len(ps)), pre)
+    return ps
+
+
+FANOUT_EDGE_WIDTHS = [1, 2, 126, 127, 128, 129, 252, 253, 254, 255, 256]
+
+
 def _fixed_certs(mks, lists, cfgl=None, fold=False):
     cfgl = cfgl or ["nc.d.1.0.b", "c.d.1.0.b", "c.0.0.0.b", "dfa.d.1.0.b", "dfa.d.0.0.u"]
     out = []
@@ -119,8 +133,20 @@ def gen_C01(tier, seed):
         reqs += _enum_small(["lf", "ll"], ["find", "iter"], ["nc.d.1.0.b", "dfa.d.1.0.u"],
                             maxp=3, maxplen=2, maxhay=4, stride=3)
     reqs += _find_like(g, qn(q, 250, 2500), ["lf", "ll"], ["find", "iter"], cf)
+    # the default builder enables prefilters: lists every prefilter variant accepts, with a pattern shadowed by an
+    # earlier prefix in the middle (pattern ids reported through a confirming prefilter), against the same definition
+    for _ in range(qn(q, 60, 600)):
+        pats = pre_pats(g)
+        if len(pats) >= 2 and g.rng.random() < 0.7:
+            i = g.rng.randrange(len(pats))
+            pats = pats[:i + 1] + [pats[i] + g.word(b"abcdefgh", 1, 3)] + pats[i + 1:]
+        mk = g.rng.choice(["lf", "ll"])
+        for _ in range(2):
+            hay = pre_hay(g, pats)
+            reqs.append(fmt_req(g.rng.choice(["find", "iter"]), {"mk": mk, "pats": hxlist(pats), "hay": hx(hay),
+                                                                "cfgs": cfgs(CFG_PRE + ["auto.d.1.1.b"])}))
     certs = _fixed_certs(["lf", "ll"], CORPUS_LISTS) + _certs(g, qn(q, 150, 600), ["lf", "ll"])
-    return {"reqs": reqs, "certs": certs, "first": True, "gen": g, "modes": "0", "l1c": True}
+    return {"reqs": reqs, "certs": certs, "first": True, "gen": g, "modes": "0", "l1c": True, "needs_cpu": True}
 
 
 def gen_C02(tier, seed):
@@ -152,6 +178,8 @@ def gen_C03(tier, seed):
     reqs += _enum_small(["std"], ["ovl", "ovliter"], ["nc.d.1.0.b", "c.0.0.0.b", "dfa.d.1.0.u"],
                         maxp=2, maxplen=2, maxhay=(3 if q else 4))
     reqs += _find_like(g, qn(q, 250, 2500), ["std"], ["ovl", "ovliter"], cf, fold=0.25)
+    # "each occurrence once ... then keeps reporting nothing" must also hold when a prefilter drives the loop
+    reqs += _resume_after_none(g, qn(q, 40, 400), ["nc.d.1.1.b", "c.d.1.1.b", "dfa.d.1.1.u", "auto.d.1.1.u", "nc.d.1.0.b"])
     certs = _fixed_certs(["std"], CORPUS_LISTS) + _fixed_certs(["std"], CORPUS_LISTS[:6], fold=True) + \
         _certs(g, qn(q, 40, 400), ["std"], fold=0.3)
     return {"reqs": reqs, "certs": certs, "first": False, "gen": g, "modes": "0", "l1c": True}
@@ -169,6 +197,9 @@ def gen_C04(tier, seed):
             "dfa.d.1.0.b", "dfa.d.0.0.b", "dfa.d.1.0.u", "dfa.d.0.0.u", "dfa.d.1.0.a", "dfa.d.0.0.a"]
     kinds = ["tiny", "tiny3", "nest", "akb", "suffix_chain", "fanout", "fanout", "casey", "random_bytes"]
     certs = _certs(g, qn(q, 60, 600), ["std", "lf", "ll"], fold=0.25, pat_kinds=kinds, cfgl=allc)
+    edge = [fanout_exact(g, w, pl, wp) for w in (FANOUT_EDGE_WIDTHS if not q else [127, 128, 253, 254, 255, 256])
+            for (pl, wp) in ((1, False), (3, True))]
+    certs += _fixed_certs(["std", "ll"] if q else ["std", "lf", "ll"], edge, cfgl=allc)
     # C04 compares configurations with each other (reference: the noncontiguous NFA), never with the model:
     # a behaviour shared by all kinds is not a C04 matter.
     for i, r in enumerate(reqs):
@@ -275,6 +306,8 @@ STREAM_PATS = [[b"ab"], [b"a"], [b"aa"], [b"ab", b"b"], [b"abc", b"bc", b"c"], [
 
 
 STREAM_OPS = ["stream", "streamrep", "streamrepwith"]
+# kinds of injected read failures: the stream API surfaces every error of the reader, whatever its kind
+RKINDS = ["other", "other", "interrupted", "interrupted", "wouldblock", "eof"]
 
 
 def compositions(n):
@@ -326,7 +359,7 @@ def _stream_reqs(g, tier, op, faults=False):
                 extra = None
                 if faults:
                     if op == "stream" or g.rng.random() < 0.5:
-                        extra = {"rfail": g.rng.randint(0, len(sched) + 1)}
+                        extra = {"rfail": g.rng.randint(0, len(sched) + 1), "rkind": g.rng.choice(RKINDS)}
                     else:
                         extra = {"wlimit": g.rng.randint(0, len(data) + 2)}
                 reqs.append(mk(pats, data, sched, spare, extra,
@@ -345,7 +378,7 @@ def _stream_reqs(g, tier, op, faults=False):
         extra = None
         if faults:
             if op == "stream" or g.rng.random() < 0.5:
-                extra = {"rfail": g.rng.randint(0, len(sched) + 2)}
+                extra = {"rfail": g.rng.randint(0, len(sched) + 2), "rkind": g.rng.choice(RKINDS)}
             else:
                 extra = {"wlimit": g.rng.randint(0, len(data) + 3)}
         reqs.append(mk(pats, data, sched, spare, extra))
@@ -357,7 +390,7 @@ def _stream_reqs(g, tier, op, faults=False):
         data[pos:pos + 3] = b"abc"
         data[10:13] = b"bcd"
         sched = [65536] if k % 2 == 0 else [40000, 25536, 7, 1000]
-        extra = ({"rfail": g.rng.randint(0, 3)} if faults else None)
+        extra = ({"rfail": g.rng.randint(0, 3), "rkind": g.rng.choice(RKINDS)} if faults else None)
         reqs.append(mk(pats, bytes(data), sched, None, extra, cf=["nc.d.1.0.b", "dfa.d.1.0.u", "auto.d.1.0.u"]))
     # rejected configurations
     reqs.append(mk([b"ab", b""], b"xabx", [2, 2], 1))
@@ -431,6 +464,11 @@ def gen_C12(tier, seed):
         kv = {"mk": mk, "pats": hxlist(pats), "hay": hx(hay), "variant": variant, "repl": hxlist(repl)}
         if variant.startswith("with") and g.rng.random() < 0.4:
             kv["stop"] = g.rng.randint(0, 3)
+        if variant.startswith("with") and g.rng.random() < 0.5:
+            # the caller's buffer is APPENDED to: already holds bytes and/or has spare capacity (more or less than the
+            # haystack is long); the harness checks that what was there is still in front of the output
+            kv["dstpre"] = hx(g.rng.choice(["", "log: ", "é|", "0123456789abcdef"]).encode())
+            kv["dstcap"] = g.rng.choice([0, 1, len(hay), len(hay) + 1, len(hay) + 7, 64, 300])
         kv["cfgs"] = cfgs(cf)
         reqs.append(fmt_req("replace", kv))
     # wrong replacement table length: documented panic
@@ -518,6 +556,29 @@ def pre_hay(g, pats, fold=False):
     return bytes(out)
 
 
+def _resume_after_none(g, n, cf):
+    """stepwise overlapping search, standard semantics, prefilter active, polled PAST its end: a pattern and an extension
+    of it (the automaton sits in a match state), then bytes that send it back to the start state, a partial candidate
+    near the end so that the prefilter finally answers 'nothing', and the byte that would extend the old match"""
+    out = []
+    for _ in range(n):
+        first = bytes([g.rng.choice(b"abq")])
+        w = first + g.word(b"bcde", 1, 3)
+        ext = bytes([g.rng.choice(b"cdez")])
+        pats = [w, w + ext]
+        if g.rng.random() < 0.4:
+            pats.append(first + g.word(b"xyz", 1, 2))
+        g.rng.shuffle(pats)
+        junk = g.word(b"xyz", 1, 3)
+        tail = g.rng.choice([first + ext, first + w[1:-1] + ext if len(w) > 2 else first + ext, ext, first])
+        hay = g.rng.choice([b"", b"z"]) + w + junk + tail
+        kv = {"mk": "std", "pats": hxlist(pats), "hay": hx(hay), "n": 4 + (len(pats) + 1) * (len(hay) + 1), "cfgs": cfgs(cf)}
+        out.append(fmt_req("ovl", kv))
+        kv2 = dict(kv); kv2.pop("n")
+        out.append(fmt_req("ovliter", kv2))
+    return out
+
+
 def gen_C05(tier, seed):
     """prefilter on (pf=1) against the model, which has no prefilter: transparency; plus the same request with pf=0"""
     g = Gen(seed)
@@ -537,11 +598,13 @@ def gen_C05(tier, seed):
             if fold:
                 kv["fold"] = 1
             if op == "ovl":
-                kv["n"] = g.rng.randint(1, 12)
+                # sometimes the whole call history and beyond (calls after the search is exhausted must keep answering none)
+                kv["n"] = g.rng.randint(1, 12) if g.rng.random() < 0.5 else 4 + min(60, (len(pats) + 1) * (e - s + 1 if e >= s else 1))
             if op == "find" and g.rng.random() < 0.2:
                 kv["earliest"] = 1
             kv["cfgs"] = cfgs(cf)
             reqs.append(fmt_req(op, kv))
+    reqs += _resume_after_none(g, qn(q, 60, 600), cf)
     # the prefilters themselves: variant chosen + candidate for a span, against the L3 model
     pcf = ["nc.d.1.1.b", "c.d.1.1.b", "dfa.d.1.1.u"]
     for _ in range(qn(q, 300, 4000)):
@@ -642,6 +705,30 @@ def gen_C10(tier, seed):
         i0 = len(reqs)
         reqs += [mkreq2(hay, s, e), mkreq2(hay[s:e], 0, e - s), mkreq2(hay3, s, e)]
         triples.append((i0, s))
+    # the empty pattern (the start state is a match state: the very first answer is positioned at the span start),
+    # every operation, spans that start after 0
+    for _ in range(qn(q, 45, 450)):
+        pats = [p for p in g.pats() if p][:3] + [b""]
+        g.rng.shuffle(pats)
+        hay = g.hay(pats, 9)
+        n = len(hay)
+        s = g.rng.randint(1, n) if n else 0
+        e = g.rng.randint(s, n)
+        mk = g.rng.choice(["std", "std", "lf", "ll"])
+        op = g.rng.choice(["find", "iter"] + (["ovl", "ovl", "ovliter"] if mk == "std" else []))
+        base = {"mk": mk, "pats": hxlist(pats)}
+        if g.rng.random() < 0.25:
+            base["anch"] = 1
+        if op == "ovl":
+            base["n"] = 4 + (len(pats) + 1) * (e - s + 1)
+        alpha, foreign = g.alphabet(pats)
+        hay3 = bytes(g.rng.choice(alpha or b"x") for _ in range(s)) + hay[s:e] + bytes(g.rng.choice(alpha or b"x") for _ in range(g.rng.randint(0, 3)))
+        def mkreq3(h, a, b):
+            kv = dict(base); kv.update({"hay": hx(h), "s": a, "e": b, "cfgs": cfgs(cf)})
+            return fmt_req(op, kv)
+        i0 = len(reqs)
+        reqs += [mkreq3(hay, s, e), mkreq3(hay[s:e], 0, e - s), mkreq3(hay3, s, e)]
+        triples.append((i0, s))
     # start = end + 1
     for _ in range(20):
         pats = g.pats(); hay = g.hay(pats, 6)
@@ -679,9 +766,19 @@ PACKED_VARIANTS = ["rk", "teddy", "slim128", "slim256", "fat", "default"]
 
 def packed_pats(g):
     """packed stressors (DESIGN 4.3): shared fingerprints, many fingerprints, 1..128 patterns, minimum length 1..5"""
-    k = g.rng.choice(["few", "few", "samefp", "manyfp", "many33", "many65", "min1", "nested", "dups", "long", "verylong"])
+    k = g.rng.choice(["few", "few", "samefp", "manyfp", "many33", "many65", "min1", "nested", "dups", "long", "verylong",
+                      "manydups", "manydups"])
     g.note("packed:" + k)
     a = b"abcdefghijklmnop"
+    if k == "manydups":
+        # 21..60 patterns, few distinct lengths, every word several times in rotated rounds: the order among equal
+        # lengths (= the order supplied) decides the reported id
+        stems = [g.word(a[:5], 2, 6) for _ in range(g.rng.randint(5, 9))]
+        rounds = g.rng.randint(3, 6)
+        out = []
+        for r in range(rounds):
+            out += stems[r % len(stems):] + stems[:r % len(stems)]
+        return out[: max(21, min(60, len(out)))]
     if k == "few":
         return [g.word(a[:6], 1, 6) for _ in range(g.rng.randint(1, 8))]
     if k == "samefp":
@@ -795,6 +892,13 @@ def gen_C20(tier, seed):
             kv["fold"] = 1
         reqs.append(fmt_req("meta", kv))
         reqs.append(fmt_req("selfcheck", kv))
+    # fan-outs at which a state's encoding switches (every pattern must still be found with its own id)
+    for w in FANOUT_EDGE_WIDTHS:
+        for (pl, wp) in ((1, False), (3, True)):
+            pats = fanout_exact(g, w, pl, wp)
+            kv = {"mk": g.rng.choice(["std", "ll"]), "pats": hxlist(pats), "cfgs": cfgs(allc)}
+            reqs.append(fmt_req("meta", kv))
+            reqs.append(fmt_req("selfcheck", kv))
     # pattern ids through a confirming (packed) prefilter when leftmost-first drops patterns from the trie
     for _ in range(qn(q, 40, 400)):
         base = [g.word(b"abcdefgh", 2, 5) for _ in range(g.rng.randint(4, 10))]
